@@ -1064,7 +1064,7 @@ impl TDigestView<'_> {
                 return Some(if value == self.min {
                     0.5 / centroids_weight
                 } else {
-                    (1. + (((value - self.min) / (first_mean - self.min))
+                    (1. + (fraction_between(value, self.min, first_mean)
                         * ((self.centroids[0].weight() / 2.) - 1.)))
                         / centroids_weight
                 });
@@ -1080,7 +1080,7 @@ impl TDigestView<'_> {
                     1. - (0.5 / centroids_weight)
                 } else {
                     1.0 - ((1.0
-                        + (((self.max - value) / (self.max - last_mean))
+                        + (fraction_between(value, self.max, last_mean)
                             * ((self.centroids[num_centroids - 1].weight() / 2.) - 1.)))
                         / centroids_weight)
                 });
@@ -1123,8 +1123,12 @@ impl TDigestView<'_> {
         Some(
             if self.centroids[upper].mean - self.centroids[lower].mean > 0. {
                 (weight_below
-                    + (weight_delta * (value - self.centroids[lower].mean)
-                        / (self.centroids[upper].mean - self.centroids[lower].mean)))
+                    + (weight_delta
+                        * fraction_between(
+                            value,
+                            self.centroids[lower].mean,
+                            self.centroids[upper].mean,
+                        )))
                     / centroids_weight
             } else {
                 (weight_below + weight_delta / 2.) / centroids_weight
@@ -1157,11 +1161,11 @@ impl TDigestView<'_> {
         // at least 2 centroids
         let first_weight = self.centroids[0].weight();
         if first_weight > 1. && weight < first_weight / 2. {
-            return Some(
-                self.min
-                    + (((weight - 1.) / ((first_weight / 2.) - 1.))
-                        * (self.centroids[0].mean - self.min)),
-            );
+            return Some(interpolate(
+                self.min,
+                self.centroids[0].mean,
+                (weight - 1.) / ((first_weight / 2.) - 1.),
+            ));
         }
         let last_weight = self.centroids[num_centroids - 1].weight();
         if last_weight > 1. && (centroids_weight - weight <= last_weight / 2.) {
@@ -1173,9 +1177,11 @@ impl TDigestView<'_> {
             } else {
                 1.
             };
-            return Some(
-                self.max - (fraction * (self.max - self.centroids[num_centroids - 1].mean)),
-            );
+            return Some(interpolate(
+                self.max,
+                self.centroids[num_centroids - 1].mean,
+                fraction,
+            ));
         }
 
         // interpolate between extremes
@@ -1347,6 +1353,33 @@ mod scale_function {
     }
 }
 
-const fn weighted_average(x1: f64, w1: f64, x2: f64, w2: f64) -> f64 {
-    (x1 * w1 + x2 * w2) / (w1 + w2)
+fn weighted_average(x1: f64, w1: f64, x2: f64, w2: f64) -> f64 {
+    let total = w1 + w2;
+    let average = (x1 * w1 + x2 * w2) / total;
+    if average.is_finite() {
+        average
+    } else {
+        // the products overflow for magnitudes near f64::MAX; the shares do not
+        x1 * (w1 / total) + x2 * (w2 / total)
+    }
+}
+
+/// `(value - lo) / (hi - lo)`, also when the span `hi - lo` exceeds `f64::MAX`.
+fn fraction_between(value: f64, lo: f64, hi: f64) -> f64 {
+    let span = hi - lo;
+    if span.is_finite() {
+        (value - lo) / span
+    } else {
+        (value / 2. - lo / 2.) / (hi / 2. - lo / 2.)
+    }
+}
+
+/// `from + fraction * (to - from)`, also when the span `to - from` exceeds `f64::MAX`.
+fn interpolate(from: f64, to: f64, fraction: f64) -> f64 {
+    let span = to - from;
+    if span.is_finite() {
+        from + fraction * span
+    } else {
+        from * (1. - fraction) + to * fraction
+    }
 }
